@@ -5,6 +5,8 @@ from ..walk import ctx_s
 from ..facts import atom_s
 from ..parsers import ret_value_kind
 
+from .search import check_search_loops
+
 
 class Selection:
     def __init__(self, fn, var):
@@ -26,7 +28,8 @@ def selections(cx):
         for d in fw.defs:
             if d.kind == 'let' and d.mutable and d.init is not None and d.init['k'] == 'Path' and d.init['path']['s'] == 'None' and d.assigns:
                 somes = [a for a in d.assigns if a.value['k'] == 'Call' and es(a.value['func']) == 'Some']
-                if somes and any(any(c['k'] == 'for' for c in a.ctx) for a in somes):
+                inloop = [a for a in d.assigns if any(c['k'] == 'for' and c not in d.ctx for c in a.ctx)]
+                if inloop and (somes or any('Some' in es(a.value) for a in inloop)):
                     s = Selection(fn, d)
                     s.assign_some = somes
                     s.assign_none = [a for a in d.assigns if a.value['k'] == 'Path' and a.value['path']['s'] == 'None']
@@ -49,6 +52,14 @@ def check_selections(cx, facts, rep):
         where = fn.qname
         inst0 = 'select=%s' % d.name
         good = True
+        # SEL0: every search loop, interpreted over the selection's state {None, Some}: first hit designates, a further hit refuses
+        # (or resets and stops), a non-matching item changes nothing
+        class _S: pass
+        S_ = _S(); S_.fw = fw
+        auto = check_search_loops(S_, d, None)
+        if isinstance(auto, str):
+            rep.bad('SEL', where, inst0 + '-search', auto, fn.file, d.line)
+            good = False
         for a in s.assign_some:
             loops = [c for c in a.ctx if c['k'] == 'for' and c not in d.ctx]
             if len(loops) != 1:
